@@ -30,11 +30,143 @@ pub struct Scenario {
     /// optional concurrent epilogue (monitor + end-to-end prefix only)
     pub epilogue: Vec<Vec<Op>>,
     pub sched: SchedSpec,
+    /// whole-engine variant: after some writing runs, seeded read-only HTTP requests (status,
+    /// cut points, listings, task output, dry runs, diagnostics, SSE attaches — known, unknown and
+    /// hostile ids) against the real router must leave events.jsonl byte-identical and untouched
+    #[serde(default)]
+    pub engine: Option<EngineSc>,
+}
+
+#[derive(Clone, Debug, Serialize, Deserialize, PartialEq)]
+pub struct EngineSc {
+    pub writes: u8,
+    /// (request kind, id selector, parameter)
+    pub reads: Vec<(u8, u8, u32)>,
 }
 
 pub struct C02;
 
+static ENGINE_TRUTH: Mutex<String> = Mutex::new(String::new());
+static ENGINE_BAD: Mutex<Vec<String>> = Mutex::new(Vec::new());
+static ENGINE_ARMED: std::sync::atomic::AtomicBool = std::sync::atomic::AtomicBool::new(false);
+
+fn engine_observer(_actor: i32, e: &crate::seam::Effect) -> crate::seam::Decision {
+    if ENGINE_ARMED.load(std::sync::atomic::Ordering::SeqCst) {
+        let t = ENGINE_TRUTH.lock().map(|g| g.clone()).unwrap_or_default();
+        if !t.is_empty() && (e.path == t || e.path2.as_deref() == Some(t.as_str())) && !matches!(e.kind, EffectKind::OpenRead | EffectKind::Fsync) {
+            if let Ok(mut g) = ENGINE_BAD.lock() {
+                if g.len() < 8 {
+                    g.push(format!("{:?} (flags {:#x}, len {})", e.kind, e.flags, e.len));
+                }
+            }
+        }
+    }
+    crate::seam::Decision::Proceed
+}
+
+fn generate_engine(run_seed: u64) -> EngineSc {
+    let mut rng = Rng::derive(run_seed, "c02-engine");
+    EngineSc { writes: rng.range(1, 3) as u8, reads: (0..rng.range(4, 16)).map(|_| (rng.below(16) as u8, rng.below(6) as u8, rng.below(5) as u32)).collect() }
+}
+
+fn execute_engine(e: &EngineSc, env: &Env) -> (Outcome, RunStats) {
+    use crate::esim::{Engine, ProviderCfg};
+    let mut stats = RunStats::default();
+    stats.bump("engine_scenarios", 1);
+    stats.case_hash = crate::prng::fnv1a(serde_json::to_string(e).unwrap_or_default().as_bytes());
+    let engine = match Engine::new(&env.root.join("e"), &ProviderCfg::default(), vec![], false) {
+        Ok(x) => x,
+        Err(err) => return (Outcome::Harness(err), stats),
+    };
+    let truth_path = engine.data.join("events.jsonl");
+    *ENGINE_TRUTH.lock().unwrap() = truth_path.to_string_lossy().to_string();
+    ENGINE_BAD.lock().unwrap().clear();
+    ENGINE_ARMED.store(false, std::sync::atomic::Ordering::SeqCst);
+    seam::set_mode(seam::MODE_OFF);
+    seam::set_root_prefix("");
+    seam::set_report_reads(true);
+    seam::set_capture_data(false);
+    seam::set_effect_handler(Some(engine_observer));
+    seam::set_mode(seam::MODE_MONITOR);
+    let res: Result<Option<Violation>, String> = (|| {
+        let (_, v) = engine.call_json("POST", "/threads/ensure", None)?;
+        let tid = v["thread_id"].as_str().unwrap_or("").to_string();
+        let mut sessions = Vec::new();
+        let mut task_id = String::new();
+        for k in 0..e.writes {
+            let (st, v) = engine.call_json("POST", &format!("/threads/{tid}/messages"), Some(json!({"content": json!({"tool": "write", "args": {"path": format!("w{k}.txt"), "content": "x\n"}}).to_string()})))?;
+            if st != 202 {
+                return Err(format!("post: {st}"));
+            }
+            sessions.push(v["session_id"].as_str().unwrap_or("").to_string());
+        }
+        {
+            let (st, v) = engine.call_json("POST", "/tasks", Some(json!({"tool": "bash", "args": {"command": "echo hi"}})))?;
+            if st == 201 {
+                task_id = v["task_id"].as_str().unwrap_or("").to_string();
+            }
+        }
+        let (ss, tk) = (sessions.clone(), task_id.clone());
+        engine.wait_until(std::time::Duration::from_secs(40), |t| {
+            ss.iter().all(|s| t.frames.iter().any(|f| f.ty == "continuity_run_ended" && f.s("run_session_id") == Some(s.as_str()))) && (tk.is_empty() || t.frames.iter().any(|f| f.stream_id == tk && f.ty == "tool_task_status" && matches!(f.s("status"), Some("exited") | Some("failed"))))
+        })?;
+        engine.settle(30);
+        let before = std::fs::read(&truth_path).map_err(|x| x.to_string())?;
+        ENGINE_ARMED.store(true, std::sync::atomic::Ordering::SeqCst);
+        let ids = [tid.as_str(), "00000000-0000-4000-8000-000000000001", "..%2Fevents", "..", "%20", "a%2Fb"];
+        let mut done: Vec<String> = Vec::new();
+        for (kind, idsel, par) in &e.reads {
+            let id = ids[*idsel as usize % ids.len()];
+            let sid = sessions.first().cloned().unwrap_or_default();
+            let stride = [0u64, 1, 2, 1000, u64::MAX][*par as usize % 5];
+            let (label, r): (String, Result<(u16, Vec<u8>), String>) = match kind % 16 {
+                0 => ("GET /threads".into(), engine.call("GET", "/threads", None)),
+                1 => (format!("GET /threads/{id}"), engine.call("GET", &format!("/threads/{id}"), None)),
+                2 => (format!("POST /threads/{id}/compaction-cut-points"), engine.call("POST", &format!("/threads/{id}/compaction-cut-points"), Some(json!({"stride_messages": stride, "limit": par})))),
+                3 => (format!("POST /threads/{id}/compaction-status"), engine.call("POST", &format!("/threads/{id}/compaction-status"), Some(json!({"stride_messages": stride})))),
+                4 => (format!("POST /threads/{id}/provider-cursor-status"), engine.call("POST", &format!("/threads/{id}/provider-cursor-status"), Some(json!({})))),
+                5 => (format!("POST /threads/{id}/context-selection-status"), engine.call("POST", &format!("/threads/{id}/context-selection-status"), Some(json!({"limit": par})))),
+                6 => (format!("POST /threads/{id}/compaction-auto dry_run"), engine.call("POST", &format!("/threads/{id}/compaction-auto"), Some(json!({"stride_messages": stride.clamp(1, 3), "dry_run": true, "actor_id": "sim", "origin": "sim"})))),
+                7 => (format!("POST /threads/{id}/compaction-auto-schedule dry_run"), engine.call("POST", &format!("/threads/{id}/compaction-auto-schedule"), Some(json!({"stride_messages": stride.clamp(1, 3), "dry_run": true, "actor_id": "sim", "origin": "sim"})))),
+                8 => (format!("GET /threads/{id}/events"), engine.read_stream(&format!("/threads/{id}/events"), 25)),
+                9 => ("GET /sessions/{id}/events".into(), engine.read_stream(&format!("/sessions/{sid}/events"), 25)),
+                10 => ("GET /tasks".into(), engine.call("GET", "/tasks", None)),
+                11 => ("GET /tasks/{id}".into(), engine.call("GET", &format!("/tasks/{task_id}"), None)),
+                12 => ("GET /tasks/{id}/output".into(), engine.call("GET", &format!("/tasks/{task_id}/output?stream=stdout&offset_bytes={par}&max_bytes=16"), None)),
+                13 => ("GET /tasks/{id}/events".into(), engine.read_stream(&format!("/tasks/{task_id}/events"), 25)),
+                14 => ("GET /config/doctor".into(), engine.call("GET", "/config/doctor", None)),
+                _ => ("GET /openapi.json".into(), engine.call("GET", "/openapi.json", None)),
+            };
+            let _ = r?;
+            stats.bump("engine_read_only_requests", 1);
+            done.push(label);
+            let after = std::fs::read(&truth_path).map_err(|x| x.to_string())?;
+            let bad = std::mem::take(&mut *ENGINE_BAD.lock().unwrap());
+            if after != before || !bad.is_empty() {
+                let what = done.last().cloned().unwrap_or_default();
+                let kind = what.split('/').next_back().unwrap_or("?").split(' ').next().unwrap_or("?").to_string();
+                return Ok(Some(Violation { class: "noop_wrote".into(), signature: format!("noop_wrote:http:{}", if kind.contains('-') || kind == "events" || kind == "threads" || kind == "tasks" || kind == "output" || kind == "doctor" { kind } else { "by_id".into() }), detail: format!("{what}: events.jsonl went from {} to {} bytes; effects on it: {bad:?}", before.len(), after.len()) }));
+            }
+        }
+        Ok(None)
+    })();
+    ENGINE_ARMED.store(false, std::sync::atomic::Ordering::SeqCst);
+    seam::set_mode(seam::MODE_OFF);
+    seam::set_effect_handler(None);
+    stats.nontrivial = true;
+    drop(engine);
+    match res {
+        Ok(None) => (Outcome::Ok, stats),
+        Ok(Some(v)) => (Outcome::Violation(v), stats),
+        Err(err) => (Outcome::Harness(err), stats),
+    }
+}
+
 pub fn generate(run_seed: u64, tier: Tier) -> Scenario {
+    if Rng::derive(run_seed, "c02-kind").chance(1, 80) {
+        let mut srng = Rng::derive(run_seed, "sched-spec");
+        return Scenario { sim_seed: 1, steps: vec![], epilogue: vec![], sched: SchedSpec::generate(&mut srng, 10), engine: Some(generate_engine(run_seed)) };
+    }
     let mut rng = Rng::derive(run_seed, "ops");
     let n = rng.range(4, if tier == Tier::Quick { 40 } else { 90 }) as usize;
     let mut steps = vec![Step::Op(Op::EnsureDefault)];
@@ -89,6 +221,7 @@ pub fn generate(run_seed: u64, tier: Tier) -> Scenario {
         steps,
         epilogue,
         sched: SchedSpec::generate(&mut srng, 300),
+        engine: None,
     }
 }
 
@@ -145,6 +278,9 @@ struct Shared {
 }
 
 pub fn execute(sc: &Scenario, env: &Env) -> (Outcome, RunStats) {
+    if let Some(e) = &sc.engine {
+        return execute_engine(e, env);
+    }
     let dirs = storesim::begin_run(&env.root, sc.sim_seed, 250_000);
     let world = Arc::new(World::new(dirs.clone()));
     let truth_path = dirs.truth_path();
@@ -451,7 +587,7 @@ impl Check for C02 {
     }
     fn assumptions(&self) -> Vec<String> {
         vec![
-            "streaming (SSE) handlers are exercised in C06, where the same truth-file monitor runs".into(),
+            "1 in 80 evaluations is a whole-engine run: after some writing runs and a task, 4-16 seeded read-only HTTP requests against the real router (listings, thread/task lookups, cut points, the three status calls, dry-run auto/schedule, task output pages, diagnostics, and SSE attaches to thread, session and task streams; known, unknown and path-like ids) must leave events.jsonl byte-identical, with no mutating effect on it seen by the seam".into(),
             "a rotate that reports rotated=false is counted as a no-op invocation".into(),
         ]
     }
